@@ -38,6 +38,8 @@ def main():
         assert sh("git -C /repo status --porcelain -- pyxform").stdout.strip() == "", "/repo is dirty"
         env = "PYTHONPATH=/repo PYTHONHASHSEED=0"
         before = sh(f"cd /tmp && {env} timeout 300 /venv/bin/python {dest}/demo.py")
+        evf = VERIF / "evidence" / f"{pid}.json"
+        ev_backup = evf.read_text() if evf.exists() else None
         ap = sh(f"git -C /repo apply {dest}/patch.diff")
         if ap.returncode != 0:
             print(name, "PATCH DOES NOT APPLY", ap.stderr[:300])
@@ -58,6 +60,8 @@ def main():
                     rp = None
         finally:
             sh("git -C /repo checkout -- pyxform")
+            if ev_backup is not None:
+                evf.write_text(ev_backup)   # evidence must come from the unchanged tree only
         meta["confirmed"] = {"demo_unmodified_exit": before.returncode, "demo_patched_exit": after.returncode}
         meta["check"] = {"cmd": f"harness/check.py {pid} --tier {tier}", "exit": chk.returncode, "violation_line": replay,
                          "what": (rp or {}).get("what") or [b.get("what") for b in (rp or {}).get("broken", [])][:3],
